@@ -102,7 +102,7 @@ CLAIMED['C09'] = dict(
     text='Contract proof for 8-bit pixels over the real bodies of rgb_to_luminance (integer path), gray->rgb, rgb->gray, rgb->cmyk, cmyk->rgb, '
          'cmyk->gray, <C1,rgba_t> and <rgba_t,C2>: luminance within one unit of 0.30r+0.59g+0.11b, monotone, (v,v,v)->v exactly; black->black and '
          'white->white between rgb and cmyk; rgb->cmyk->rgb within one level (256 partition cells over the black level, all rgb8 pixels); to-rgba '
-         'pairs channels BY COLOUR NAME for rgba/bgra/argb/abgr destinations and sets alpha to max; from-rgba is the conversion of the alpha-premultiplied rgb (rgb and cmyk destinations; transparent -> cmyk black). '
+         'pairs channels BY COLOUR NAME for rgba/bgra/argb/abgr destinations and sets alpha to max (alpha_or_max is the channel range maximum also for 16-bit and float pixels); from-rgba is the conversion of the alpha-premultiplied rgb (rgb and cmyk destinations; transparent -> cmyk black). '
          'Pixels are arrays in memory order with get_color indices measured on the real pixel types.',
     note=TRUST + '16-bit/float pixel instantiations, same-colour-space conversion (static_for_each), color_convert_deref_fn and copy_and_convert_pixels are not covered; '
          '8-bit channel_convert identity taken from C06.',
@@ -157,7 +157,7 @@ CLAIMED['C04'] = dict(
     design='4/C04')
 
 CLAIMED['C15'] = dict(
-    text='Partial (index and boundary bookkeeping). Loop-contract proof of detail::correlate_rows_impl for all five boundary options (one cell per option) and of '
+    text='Partial (index and boundary bookkeeping). reverse_kernel / convolve_rows / convolve_cols: convolution is correlation with the reversed kernel (coefficients and centre) for every kernel. Loop-contract proof of detail::correlate_rows_impl for all five boundary options (one cell per option) and of '
          'kernel left_size/right_size: for EVERY output pixel (ghost coordinate), width >= 0 incl. narrower than the kernel, kernel size <= 4096, any centre: the '
          'pixel is written at most once; under extend_* it is correlated; under output_zero / output_ignore it is correlated exactly when its window fits inside the row, '
          'otherwise zeroed / left untouched; every buffer write, correlation window, source read and destination write is inside its range; a source row is read before any destination pixel of that row is written (in-place filtering as in detail::convolve_1d).',
